@@ -94,6 +94,11 @@ def run (args : List String) : Option String :=
     let pts ← parseList? parsePt? pts; let ds ← parseList? parseRat? ds; let r2 ← parseRat? r2
     let N := normXyF C14.fl64 pts ds r2
     pure s!"{fmtList fmtPt N.pts} {fmtRat N.s} {fmtRat N.tx} {fmtRat N.ty}"
+  | ["normxyp", pts, ds, r2] => do
+    -- up to 128 points: numpy's pairwise summation for the mean distance
+    let pts ← parseList? parsePt? pts; let ds ← parseList? parseRat? ds; let r2 ← parseRat? r2
+    let N := normXyP C14.fl64 pts ds r2
+    pure s!"{fmtList fmtPt N.pts} {fmtRat N.s} {fmtRat N.tx} {fmtRat N.ty}"
   | ["normxysq", pts] => do
     let pts ← parseList? parsePt? pts
     pure (fmtList fmtRat (normXySq C14.fl64 pts))
